@@ -56,11 +56,14 @@ Definition pong_wait : Z := 60 * ns_per_s.
 Definition ping_period : Z := (pong_wait * 9) / 10.
 Definition slack : Z := pong_wait - ping_period.          (* 6 s *)
 
-Inductive reason := Expiry | ReadTimeout | ClientClose | NetLoss | Evicted | Denied.
+Inductive reason := Expiry | ReadTimeout | WriteTimeout | ClientClose | NetLoss | Evicted | Denied.
 
 Inductive cstatus := Open | Closed (why : reason) (at_ns : Z).
 
-Record conn := mkconn { fire : Z; deadline : Z; next_ping : Z; status : cstatus }.
+(* [wdeadline] is the write deadline the socket currently carries: none until the first write,
+   then whatever the LAST write set (writePump sets now + writeWait before every data write, and -
+   in the code as it is - before every ping too) *)
+Record conn := mkconn { fire : Z; deadline : Z; next_ping : Z; wdeadline : option Z; status : cstatus }.
 
 Inductive ev :=
 | EPing          (* the ticker fires, writePump sends a ping *)
@@ -71,7 +74,7 @@ Inductive ev :=
 | EIgnoreClose   (* the client ignores a close frame *)
 | EClientClose | ENetLoss | EEvict | EDeny.
 
-Definition start (t fire_ns : Z) : conn := mkconn fire_ns (t + pong_wait) (t + ping_period) Open.
+Definition start (t fire_ns : Z) : conn := mkconn fire_ns (t + pong_wait) (t + ping_period) None Open.
 
 (* let time pass up to tau: the earlier of the two timers that is due closes the connection *)
 Definition advance (c : conn) (tau : Z) : conn :=
@@ -79,29 +82,47 @@ Definition advance (c : conn) (tau : Z) : conn :=
   | Closed _ _ => c
   | Open =>
       if (fire c <=? tau) && (fire c <=? deadline c)
-      then mkconn (fire c) (deadline c) (next_ping c) (Closed Expiry (fire c))
+      then mkconn (fire c) (deadline c) (next_ping c) (wdeadline c) (Closed Expiry (fire c))
       else if deadline c <? tau
-      then mkconn (fire c) (deadline c) (next_ping c) (Closed ReadTimeout (deadline c))
+      then mkconn (fire c) (deadline c) (next_ping c) (wdeadline c) (Closed ReadTimeout (deadline c))
       else c
   end.
 
 Definition close_with (c : conn) (r : reason) (tau : Z) : conn :=
-  mkconn (fire c) (deadline c) (next_ping c) (Closed r tau).
+  mkconn (fire c) (deadline c) (next_ping c) (wdeadline c) (Closed r tau).
 
-Definition apply_ev (c : conn) (e : ev) (tau : Z) : conn :=
+Definition write_wait : Z := 10 * ns_per_s.
+
+(* a write at tau under the deadline the socket carries fails when that deadline has passed *)
+Definition write_fails (c : conn) (tau : Z) : bool :=
+  match wdeadline c with Some d => d <? tau | None => false end.
+
+(* [own] = the ping branch sets its own write deadline before writing (true in the code as it is).
+   The variant own = false sends the ping under the deadline the last data write left behind. *)
+Definition apply_ev_v (own : bool) (c : conn) (e : ev) (tau : Z) : conn :=
   match status c with
   | Closed _ _ => c
   | Open =>
       match e with
-      | EPing => mkconn (fire c) (deadline c) (next_ping c + ping_period) Open
-      | EPong => mkconn (fire c) (tau + pong_wait) (next_ping c) Open
-      | EDataIn | EDataOut | EStall | EIgnoreClose => c
+      | EPing =>
+          if own then mkconn (fire c) (deadline c) (next_ping c + ping_period) (Some (tau + write_wait)) Open
+          else if write_fails c tau then close_with c WriteTimeout tau   (* writePump returns, socket closed *)
+          else mkconn (fire c) (deadline c) (next_ping c + ping_period) (wdeadline c) Open
+      | EPong => mkconn (fire c) (tau + pong_wait) (next_ping c) (wdeadline c) Open
+      | EDataOut => mkconn (fire c) (deadline c) (next_ping c) (Some (tau + write_wait)) Open
+      | EDataIn | EStall | EIgnoreClose => c
       | EClientClose => close_with c ClientClose tau
       | ENetLoss => close_with c NetLoss tau
       | EEvict => close_with c Evicted tau
       | EDeny => close_with c Denied tau
       end
   end.
+
+Definition apply_ev (c : conn) (e : ev) (tau : Z) : conn := apply_ev_v true c e tau.
+
+Definition step_v (own : bool) (c : conn) (x : ev * Z) : conn := apply_ev_v own (advance c (snd x)) (fst x) (snd x).
+Definition run_v (own : bool) (c : conn) (evs : list (ev * Z)) (horizon : Z) : conn :=
+  advance (fold_left (step_v own) evs c) horizon.
 
 Definition step (c : conn) (x : ev * Z) : conn := apply_ev (advance c (snd x)) (fst x) (snd x).
 
@@ -147,7 +168,6 @@ Fixpoint pings_only (np : Z) (k : nat) : list (ev * Z) :=
    writes: a writer blocked inside a write since [w] (a reader that stalled) saw it only when the
    write returned, at the latest at its write deadline w + writeWait.  Since the repair the
    watcher closes the socket itself. *)
-Definition write_wait : Z := 10 * ns_per_s.
 Definition cancel_seen_unrepaired (fire_ns : Z) (blocked_since : option Z) : Z :=
   match blocked_since with Some w => Z.max fire_ns (w + write_wait) | None => fire_ns end.
 Definition cancel_seen (fire_ns : Z) (blocked_since : option Z) : Z := fire_ns.
